@@ -281,6 +281,9 @@ def execute_factory(cfg):
                     ref.items.append((applied[0], applied[1], applied[2], "w"))
                 ref.cur = applied[1]
             last_raised = raised is not None
+            # queries between the calls (their results are discarded): a cached / derived view that is
+            # not refreshed by a later mutation would make the final observation stale
+            list(mm.resources()); list(mm.windows()); list(mm.window_patterns()); list(mm.all_resources())
             failed_name = failed_obj = None
             if raised is not None and kind in ("res", "win"):
                 failed_name = (f"p{pos}",)
